@@ -263,6 +263,9 @@ type FnRun struct {
 	noInvLoops []string
 	modelsUsed map[string]bool
 	calleesByContract map[string]bool
+	failKeysDone bool
+	failKeyList []string
+	trustedCallees map[string]bool
 	pureIfaces map[string]bool
 	userCalls map[string]bool
 	spawned map[string]bool
@@ -760,6 +763,11 @@ func (s *State) load(l *Loc) *V {
 			v = s.zero(l.Cell.Type().Underlying().(*types.Pointer).Elem())
 		}
 		for _, i := range l.Path {
+			if i >= len(v.F) {
+				// a field of a value the model keeps abstract (struct type of another module): unknown
+				r.abstractNote(s, "field read of an abstract struct value")
+				return s.sym("absfield", l.T)
+			}
 			v = v.F[i]
 		}
 		return v
@@ -794,6 +802,12 @@ func (s *State) store(l *Loc, v *V) {
 		cur := s.cells[l.Cell]
 		if cur == nil {
 			cur = s.zero(l.Cell.Type().Underlying().(*types.Pointer).Elem())
+		}
+		if len(l.Path) > 0 && pathOutside(cur, l.Path) {
+			// a field write into a value the model keeps abstract: the whole value becomes unknown
+			r.abstractNote(s, "field write into an abstract struct value")
+			s.cells[l.Cell] = s.sym("absval", l.Cell.Type().Underlying().(*types.Pointer).Elem())
+			return
 		}
 		s.cells[l.Cell] = setPath(cur, l.Path, v)
 		return
@@ -1017,4 +1031,15 @@ func (s *State) allocBound(leaf string) string {
 		return s.run.entryAlloc
 	}
 	return s.ghost["alloc"]
+}
+
+
+func pathOutside(v *V, path []int) bool {
+	for _, i := range path {
+		if v == nil || i >= len(v.F) {
+			return true
+		}
+		v = v.F[i]
+	}
+	return false
 }
